@@ -535,6 +535,7 @@ pub fn main_http(backend: Backend, seed: u64) {
                 for l in c.l1.out.drain(..) {
                     writeln!(w, "{l}").unwrap();
                 }
+                w.flush().unwrap();
             }
         }
     }
